@@ -112,7 +112,10 @@ func codes(items []rtspwire.Item) string {
 
 var attachCounter int
 
-func (p *player) attach(x *vrt.Exec) {
+func (p *player) attach(x *vrt.Exec) { p.attachUpTo(x, true) }
+
+// attachUpTo performs the handshake; with play=false it stops after the SETUPs (RTSP/TCP-carried kinds only).
+func (p *player) attachUpTo(x *vrt.Exec, play bool) {
 	attachCounter++
 	p.order = attachCounter
 	var hsk []string
@@ -151,6 +154,10 @@ func (p *player) attach(x *vrt.Exec) {
 					}
 				}
 			}
+		}
+		if !play {
+			p.handshake = strings.Join(hsk, " ")
+			return
 		}
 		_, it = p.tcp.Do("PLAY", pushURL, nil, "")
 		add(it)
@@ -795,15 +802,72 @@ func show(rs []rec, published []rec) string {
 	return "[" + strings.Join(out, " ") + "]"
 }
 
+// MulticastRestartBody: the last multicast member leaves while another multicast player is about to
+// start playing. Whatever the order in which the proxy's stop, the stopped consumption's own
+// clean-up and the restart happen, the newcomer must end up playing: connected, and receiving the
+// packets published afterwards.
+func MulticastRestartBody() func(x *vrt.Exec) {
+	return func(x *vrt.Exec) {
+		vrt.Quiet(true)
+		w := newWorld(x)
+		if w == nil {
+			return
+		}
+		w.apply("attach:mc1", false)
+		w.apply("pub", false)
+		mc2 := w.players["mc2"]
+		mc2.attachUpTo(x, false) // DESCRIBE, SETUP, SETUP done; PLAY is part of the race
+		if mc2.handshake != "200 200 200" {
+			x.Failf("adapters handshake-refused mc", "mc2 DESCRIBE/SETUP/SETUP answered [%s]", mc2.handshake)
+			return
+		}
+		vrt.Quiet(false)
+		leaverDone := false
+		vrt.GoNamed("leaver", func() {
+			w.players["mc1"].tcp.Send("TEARDOWN", pushURL, nil, "")
+			leaverDone = true
+		})
+		mc2.tcp.Send("PLAY", pushURL, nil, "")
+		vrt.Point("join-leaver", &leaverDone, func() bool { return leaverDone })
+		vrt.WhenIdle()
+		vrt.Quiet(true)
+		playCodes := codes(mc2.tcp.Drain())
+		mc2.attached, mc2.from, mc2.dgFrom = true, len(w.published), len(vnet.Datagrams())
+		w.players["mc1"].attached, w.players["mc1"].done = false, true
+		w.players["mc1"].to, w.players["mc1"].dgTo = len(w.published), len(vnet.Datagrams())
+		w.trail = append(w.trail, "detach:mc1 || PLAY:mc2")
+		w.apply("pub", false)
+		w.apply("pub", false)
+		if playCodes != "200" {
+			x.Failf("adapters mc-play-refused-during-restart", "PLAY of the newcomer answered [%s]", playCodes)
+		} else {
+			if mc2.tcp.Srv.IsClosed() {
+				x.Failf("adapters mc-newcomer-disconnected", "history [%s]: the second multicast player was disconnected although only the first one left", w.history())
+			}
+			w.players["mc1"].got = nil
+			w.players["mc1"].attached, w.players["mc1"].done = false, false // judged above; not again
+			x.Observe("%s", strings.Join(w.checkReception(), " "))
+		}
+		w.pusher.Do("TEARDOWN", pushURL, nil, "")
+		vrt.WhenIdle()
+		w.closeAllClients()
+		if n := vnet.OpenUDP(); n != 0 {
+			x.Failf("adapters udp-socket-left-open", "history [%s]: %d UDP sockets still open after every session ended", w.history(), n)
+		}
+		stuck(x, "adapters")
+	}
+}
+
 // FanoutScenarios are C01's.
 func FanoutScenarios(thorough bool) []runner.Scenario {
-	steps, e, sh := 6, 3, 8
+	steps, e, sh, mcP := 6, 3, 8, 2
 	if thorough {
-		steps, e, sh = 8, 4, 16
+		steps, e, sh, mcP = 8, 4, 16, 3
 	}
 	return []runner.Scenario{
 		{Name: fmt.Sprintf("adapters-teardown-steps%d", steps), Body: FanoutBody(steps, false), P: 0, E: e, Shards: sh, Horizon: 400000, NoFine: true},
 		{Name: fmt.Sprintf("adapters-disconnect-steps%d", steps), Body: FanoutBody(steps, true), P: 0, E: e, Shards: sh, Horizon: 400000, NoFine: true},
+		{Name: "adapters-multicast-last-member-leaves-while-another-starts", Body: MulticastRestartBody(), P: mcP, Shards: sh, Horizon: 400000, NoFine: true},
 	}
 }
 
